@@ -1203,3 +1203,63 @@ Section Inverse.
     apply map_nth.
   Qed.
 End Inverse.
+
+(* ========================================================================================== *)
+(* 12. no state is carried from one leaf to the next: the verdict of the constructor and the result of
+      mv are decided leaf by leaf, whatever the other leaves and whatever their order *)
+
+(* the constructor accepts a pytree iff it accepts the values (empty pytree) and accepts EVERY leaf taken
+   on its own - in particular the strict class rejects as soon as ANY leaf, in any position, would
+   change shape (with strict_iff_shape_preserving on the one-leaf structures) *)
+Theorem ctor_leafwise : forall cls v a ins,
+  (exists op, Diag_ctor cls v a ins = Ok op) <->
+  ((exists op, Diag_ctor cls v a [] = Ok op) /\
+   Forall (fun sh => exists op, Diag_ctor cls v a [sh] = Ok op) ins).
+Proof.
+  intros cls [vs|] a ins; simpl.
+  2:{ split; [intros [? H] | intros [[? H] _]]; discriminate. }
+  destruct (Nat.eqb_spec (length vs) 0) as [E|E].
+  { split; [intros [? H] | intros [[? H] _]]; discriminate. }
+  unfold d_out_structure. cbn [d_cls d_vshape d_axes d_in]. split.
+  - intros [op H]. apply bind_ok in H. destruct H as [outs [Ho _]].
+    split; [eexists; reflexivity|].
+    assert (G : exists m, mapM (leaf_out cls vs (axis_tuple (length vs) a)) ins = Ok m) by (exists outs; exact Ho).
+    apply mapM_ok_exists in G. rewrite Forall_forall in *. intros sh Hsh. destruct (G sh Hsh) as [o Eo].
+    cbn [mapM]. rewrite Eo. cbn [bind]. eexists; reflexivity.
+  - intros [_ HF].
+    assert (G : exists m, mapM (leaf_out cls vs (axis_tuple (length vs) a)) ins = Ok m).
+    { apply mapM_ok_exists. rewrite Forall_forall in *. intros sh Hsh. destruct (HF sh Hsh) as [op H].
+      cbn [mapM] in H. destruct (leaf_out cls vs (axis_tuple (length vs) a) sh) as [o|e]; [exists o; reflexivity | discriminate]. }
+    destruct G as [m G]. rewrite G. cbn [bind]. eexists; reflexivity.
+Qed.
+
+(* hence the order of the leaves (and which container holds them) cannot matter *)
+Theorem ctor_order_irrelevant : forall cls v a ins ins', Permutation ins ins' ->
+  ((exists op, Diag_ctor cls v a ins = Ok op) <-> (exists op, Diag_ctor cls v a ins' = Ok op)).
+Proof.
+  intros cls v a ins ins' HP. rewrite (ctor_leafwise cls v a ins), (ctor_leafwise cls v a ins').
+  split; intros [H0 HF]; (split; [exact H0|]).
+  - exact (Permutation_Forall HP HF).
+  - exact (Permutation_Forall (Permutation_sym HP) HF).
+Qed.
+
+(* each leaf of the result of a multi-leaf call is the result of the one-leaf call on that leaf *)
+Theorem mv_leafwise : forall (K : Type) (k0 : K) (kmul : K -> K -> K) op (d : arr K) x y,
+  diag_mv K k0 kmul op d x = Ok y ->
+  Forall2 (fun xi yi => diag_mv K k0 kmul op d [xi] = Ok [yi]) x y.
+Proof.
+  intros K k0 kmul op d x y H. unfold diag_mv in *. apply mapM_Forall2 in H.
+  induction H as [|xi yi x y Hi _ IH]; constructor; [|exact IH].
+  cbn [mapM]. rewrite Hi. reflexivity.
+Qed.
+
+(* and a leaf on which the one-leaf call raises makes the whole call raise *)
+Theorem mv_leaf_error : forall (K : Type) (k0 : K) (kmul : K -> K -> K) op (d : arr K) x xi e,
+  In xi x -> diag_mv K k0 kmul op d [xi] = Err e -> exists e', diag_mv K k0 kmul op d x = Err e'.
+Proof.
+  intros K k0 kmul op d x xi e Hin He. unfold diag_mv in *.
+  destruct (mapM (mv_leaf K k0 kmul (d_cls op) d (d_axes op)) x) as [y|e'] eqn:E; [|exists e'; reflexivity].
+  exfalso. apply mapM_Forall2 in E. clear -E Hin He. induction E as [|a b x y Hab _ IH]; [destruct Hin|].
+  destruct Hin as [->|Hin]; [|exact (IH Hin)].
+  cbn [mapM] in He. rewrite Hab in He. discriminate.
+Qed.
